@@ -13,7 +13,9 @@ EXPLANATION = (
     "FileNotFound/InputPastEndOfFile and the readers return UnexpectedEof behind their eof() guard; "
     "(R5) console and file forms of INPUT / LINE INPUT call the same Input method; (R6) per open mode: "
     "INPUT never creates, APPEND appends and never truncates, OUTPUT creates; (R7) GET decodes every "
-    "FIELD list from the start of the record.")
+    "FIELD list from the start of the record; (R8) the predicates INPUT / LINE INPUT skip and stop "
+    "with are tabulated at the separator characters; (R9) PUT and GET seek to an offset computed from "
+    "the record number and the handle's record length only.")
 NOT_DECIDED = ["read-back equality of file contents, exactness of EOF, record contents (value-level)"]
 
 RE = "rusty_basic::interpreter::error::RuntimeError"
@@ -396,6 +398,53 @@ def r8_separator_classes(ctx, rule="C18.R8"):
     ctx.require(rule, 3)
 
 
+def r9_put_get_same_offset(ctx, rule="C18.R9"):
+    """`a record PUT is what GET of the same record number returns`: FileInfo::put_record and
+    get_record position the file with Seek::seek(SeekFrom::Start(offset)); in both the offset is
+    computed from the record number parameter and the handle's rec_len field and from nothing else
+    (not, say, the length of the buffer being written)."""
+    prog = ctx.prog
+    n = 0
+    shapes = {}
+    for name in ("put_record", "get_record"):
+        f = prog.method("FileInfo", name)
+        if f is None:
+            raise CheckError("anchor FileInfo::%s" % name)
+        pv = mir.Prov(f.body)
+        seeks = [(b, t) for b, t in f.body.calls() if (t.get("cpath") or "").endswith("Seek::seek")]
+        if len(seeks) != 1:
+            raise CheckError("FileInfo::%s: expected one seek, found %d" % (name, len(seeks)))
+        o = pv.of_operand(seeks[0][1]["args"][1])
+        fields = set()
+        params = set()
+        calls = set()
+
+        def walk(x):
+            if isinstance(x, tuple):
+                if x and x[0] == "field":
+                    fields.add(x[2])
+                if x and x[0] == "param":
+                    params.add(x[1])
+                if x and x[0] == "call":
+                    calls.add(x[1].split("::")[-1])
+                for y in x:
+                    walk(y)
+        walk(o)
+        fields = {x for x in fields if not str(x).isdigit()}     # .0 of checked arithmetic
+        shapes[name] = (sorted(fields), sorted(params), sorted(calls))
+        n += 1
+        ok = fields == {"rec_len"} and params == {0, 1} and not (calls - {"Start"})
+        ctx.decide(ok, rule, "%s:%s:offset-from-record-number-and-rec_len" % (rule, name),
+                   "%s:%s" % (f.file, seeks[0][1].get("ln")), "offset = f(record number, rec_len)",
+                   "FileInfo::%s seeks to an offset computed from fields %s, parameters %s and calls %s: PUT and GET "
+                   "of the same record number no longer address the same bytes whenever LEN differs from that "
+                   "quantity" % (name, sorted(fields), sorted(params), sorted(calls)))
+    ctx.decide(shapes["put_record"] == shapes["get_record"], rule, rule + ":put-get-agree", "rusty_basic/src/interpreter/io.rs",
+               "both use %s" % (shapes["put_record"],),
+               "put_record computes its offset from %s, get_record from %s" % (shapes["put_record"], shapes["get_record"]))
+    ctx.require(rule, 3)
+
+
 def run(ctx):
     common.install(ctx)
     r1_open_guard(ctx)
@@ -406,3 +455,4 @@ def run(ctx):
     r6_open_modes(ctx)
     r7_record_layout(ctx)
     r8_separator_classes(ctx)
+    r9_put_get_same_offset(ctx)
